@@ -481,15 +481,36 @@ def check_direct(case, mo):
     return mism, viol, got
 
 
-def shrink_direct(case):
-    def fails(c):
-        try:
-            if not c.get('ops') or any(len(o) != 5 for o in c['ops']):
-                return False
-            return check_direct(c, None)[1] is not None
-        except Exception:
+def valid_direct(c):
+    try:
+        if c.get('flavour') not in ('plain', 'tween') or not c.get('ops'):
             return False
+        for o in c['ops']:
+            if len(o) != 5 or not isinstance(o[0], int) or not 2 <= o[0] <= 8:
+                return False
+            for l in (o[1], o[2]):
+                if l is not None and (not isinstance(l, list) or not l or any((not isinstance(x, int)) or x < 0 or x > 11 for x in l)):
+                    return False
+            if not isinstance(o[3], bool) or not isinstance(o[4], bool):
+                return False
+        return True
+    except Exception:
+        return False
+
+
+def shrink_direct(case):
+    """smallest valid case that still violates the property on the implementation"""
+    def fails(c):
+        return valid_direct(c) and check_direct(c, None)[1] is not None
     return vfutil.shrink(case, fails, max_steps=600)
+
+
+def shrunk_violation(case):
+    small = shrink_direct(case)
+    _, v, _ = check_direct(small, None)
+    if v is None:
+        _, v, _ = check_direct(case, None)
+    return v
 
 
 def run(ctx):
@@ -520,7 +541,7 @@ def run(ctx):
         if m: mism.append(m)
         elif mo is not None: agree += 1
         if v:
-            v['case'] = shrink_direct(case); viol.append(v)
+            viol.append(shrunk_violation(case))
         account('direct', case, got)
         vfutil.bump(dist['names'], len({o[0] for o in case['ops']}))
         if len({o[0] for o in case['ops']}) < len(case['ops']): dist['readds'] += 1
@@ -581,7 +602,7 @@ def search(ctx):
                     n += 1
                     _, v, _ = check_direct(case, None)
                     if v:
-                        v['case'] = shrink_direct(case); viol.append(v)
+                        viol.append(shrunk_violation(case))
                         if len(viol) >= 3:
                             return {'violations': viol, 'searched': n, 'exhaustive': False}
                     if n % 2000 == 0 and (time.time() > stop or ctx.time_left() < 60):
